@@ -71,6 +71,7 @@ type Term struct {
 }
 
 type TermStore struct {
+	liftDepth int
 	facts  map[*Term]bool // truth values implied by the path condition (learned from assumptions)
 	tab    map[string]*Term
 	nextID int
@@ -204,6 +205,43 @@ func (ts *TermStore) linAdd(lc *linComb, t *Term, k uint64, depth int) {
 }
 
 func (ts *TermStore) linBuild(lc *linComb, w int) *Term {
+	// lift a single if-then-else summand: ite(c,a,b) + rest  ==>  ite(c, a+rest, b+rest),
+	// so that shifted copies of a conditionally updated value normalise to the same shape
+	if ts.liftDepth < 6 {
+		var it *Term
+		n := 0
+		for t, k := range lc.atoms {
+			if k&mask(w) == 0 {
+				continue
+			}
+			n++
+			if t.op == OpIte && k&mask(w) == 1 {
+				if it == nil || t.id < it.id {
+					it = t
+				}
+			}
+		}
+		if it != nil && (n > 1 || lc.c&mask(w) != 0) {
+			rest := &linComb{atoms: map[*Term]uint64{}, c: lc.c}
+			for t, k := range lc.atoms {
+				if t != it {
+					rest.atoms[t] = k
+				}
+			}
+			ts.liftDepth++
+			mk := func(br *Term) *Term {
+				r2 := &linComb{atoms: map[*Term]uint64{}, c: rest.c}
+				for t, k := range rest.atoms {
+					r2.atoms[t] = k
+				}
+				ts.linAdd(r2, br, 1, 0)
+				return ts.linBuild(r2, w)
+			}
+			a, b := mk(it.args[1]), mk(it.args[2])
+			ts.liftDepth--
+			return ts.Ite(it.args[0], a, b)
+		}
+	}
 	type ak struct {
 		t *Term
 		k uint64
@@ -824,6 +862,10 @@ func (ts *TermStore) Eq(a, b *Term) *Term {
 	}
 	if a.op == OpConst && b.op == OpConst {
 		return ts.Bool(a.val == b.val)
+	}
+	if a.w > 0 && a.op == OpIte && b.op == OpIte && a.args[0] == b.args[0] {
+		c := a.args[0]
+		return ts.BOr(ts.BAnd(c, ts.Eq(a.args[1], b.args[1])), ts.BAnd(ts.BNot(c), ts.Eq(a.args[2], b.args[2])))
 	}
 	if a.w == 0 {
 		if a.op == OpConst {
